@@ -61,26 +61,62 @@ CHECKS = {
              "together by a toy instance (C17_laws_satisfiable); exercised, not proved. Nonce freshness is a hypothesis. Known finding "
              "hmac_equivalent_passphrase_accepted (inherent to PBKDF2-HMAC, no compatible fix). Observation: a stored r=0 or p=0 makes DeriveKey panic. No axioms."),
     "C01": dict(
-        text="Theorem C01_balance_and_spendable_equal_ledger: for every universe, every chain-consistent history, every prefix, every minconf >= 0 and every "
-             "sync height >= the highest confirmed block, the model's Balance equals spec_balance (the property's sum over credited, unspent-by-any-known-tx, "
-             "unleased, sufficiently confirmed, mature outputs) and UnspentOutputs is a permutation of spec_utxos (amount, block, coinbase flag). Proved by "
-             "the refinement invariant Inv (Tx/Inv.v) preserved by every event - Seen, Confirm (incl. double-spend removal), Disconnect (rollback incl. the "
-             "amt=0 branch and coinbase descendants), Abandon, lease events - about 7000 lines of Coq, unbounded in history length and graph shape; plus "
-             "C01_model_total_on_consistent_histories (the fuelled recursion never runs out); and C01_validating_node_histories_are_consistent - every event sequence "
-             "an abstract validating node with its wallet-notification channel (Tx/Node.v: mempool with replacement, blocks with coinbase/announced/never-announced "
-             "members, reorgs of any depth, missed/late/repeated/stale notifications, wallet-initiated abandon and re-delivery) can emit satisfies chain_consistent, "
-             "so the hypothesis is not an artefact of the generator. Tie to the code: node-simulator histories on the real "
-             "wtxmgr over bbolt, compared after every event with the model AND with the ledger spec for 24 (minconf, sync) pairs, spendable set, watch set, "
-             "unmined set, lease list.",
-        note="Model coq/Tx/Store.v transcribes wtxmgr bucket for bucket (10 buckets, InsertTx/AddCredit/Rollback/removeConflict/Balance/fetchCredits/leases/TxDetails/RangeTransactions); hypotheses: wf_universe (ids, positive amounts, duplicate-free inputs, inputs name existing outputs, acyclic by rank) and chain_consistent (decidable, Tx/Hist.v: what a validating node can emit - re-deliveries and unconfirmed conflicts allowed). Trusted: Coq kernel+vm_compute, the hand-written model (tied by the differential run after EVERY event), generator, bbolt. Integer wrap-around outside the model (amounts < 2^53, heights < 2^20 generated). Late discovery of credits not generated. No axioms (Print Assumptions closed)."),
+        text='9 theorems. C01_balance_and_spendable_equal_ledger: for every universe, every chain-consistent history, every prefix, every minconf >= 0 and '
+             "every sync height >= the highest confirmed block, the model's Balance equals spec_balance (the property's sum over credited, "
+             'unspent-by-any-known-tx, unleased, sufficiently confirmed, mature outputs) and UnspentOutputs is a permutation of spec_utxos (amount, block, '
+             'coinbase flag). Proved by the refinement invariant Inv (Tx/Inv.v) preserved by every event - Seen, Confirm (incl. double-spend removal), '
+             'Disconnect (rollback incl. the amt=0 branch and coinbase descendants), Abandon, Redeliver, lease events - about 7000 lines of Coq, unbounded '
+             'in history length and graph shape. C01_watch_set_equals_ledger: OutputsToWatch is exactly the credited outputs of known transactions that no '
+             'confirmed transaction spends. WALLET LAYER (Tx/Wallet.v: connectBlock / disconnectBlock / addRelevantTx / FilteredBlockConnected as '
+             'compositions of store events + synced-to): C01_wallet_store_is_store_of_image, C01_wallet_layer (for every notification history whose '
+             'store-level image is chain-consistent, at every prefix where the synced height covers every confirmed transaction, CalculateBalance(minconf) '
+             "equals the ledger balance at the synced height and ListUnspent / UnspentOutputs are permutations of the ledger's spendable outputs filtered "
+             'by confirmations and maturity), C01_wallet_layer_block_announced_first (the covering hypothesis holds by itself when a block is announced no '
+             'later than its transactions). C01_model_total_on_consistent_histories (the fuelled recursion never runs out) and '
+             'C01_validating_node_histories_are_consistent - every event sequence an abstract validating node with its wallet-notification channel '
+             '(Tx/Node.v: mempool with replacement, blocks with coinbase/announced/never-announced members, reorgs of any depth, '
+             'missed/late/repeated/stale notifications, wallet-initiated abandon and re-delivery) can emit satisfies chain_consistent, so the hypothesis '
+             'is not an artefact of the generator. Tie to the code: node-simulator histories on the real wtxmgr over bbolt - incl. RECONNECTS of detached '
+             'blocks and coinbases (same id/hash/height/transactions, another in-block order, stale unmined deliveries in between, after a deeper reorg, '
+             'partial, rescan overlap), reorg depth up to 10, amounts up to 2^54, minconf from {0,1,2,6,99,100,101,102,103,150,10^6} - compared after '
+             'every event with the model AND with the ledger spec for every (minconf, sync) pair, spendable set, watch set, unmined set, lease list; one '
+             'history in four is delivered to a REAL wallet.Wallet through the notification handlers (every height connected, rollbacks as tip-down '
+             'disconnects, stale/future/repeated disconnects mixed in, transactions before, after or atomically with their block) and CalculateBalance, '
+             'ListUnspent (5 ranges) and Wallet.UnspentOutputs are compared with model and ledger.',
+        note='Model coq/Tx/Store.v transcribes wtxmgr bucket for bucket (10 buckets, '
+             'InsertTx/AddCredit/Rollback/removeConflict/Balance/fetchCredits/leases/TxDetails/RangeTransactions/OutputsToWatch); hypotheses: wf_universe '
+             '(ids, positive amounts, duplicate-free inputs, inputs name existing outputs, acyclic by rank) and chain_consistent (decidable, Tx/Hist.v: '
+             'what a validating node can emit - re-deliveries and unconfirmed conflicts allowed; a repeated Abandon is not an event a node emits). KNOWN '
+             'FINDING (4 kinds zero_value_output:*, one defect): a ZERO-value wallet output whose mined spender is rolled back is not restored to the '
+             "unspent index (rollback reads a zero amount as 'credit already removed'): OutputsToWatch, UnspentOutputs and ListUnspent lose an output that "
+             'is credited, unspent and unleased; the balance is unaffected; zero-value outputs are outside wf_universe, hence outside the theorems '
+             '(PARTIAL), and are judged by the ledger oracle on one history in twelve; replay '
+             'corpus/C01/zero_value_credit_lost_after_spender_rolled_back.json. PARTIAL: the wallet-ledger comparison applies only where the synced height '
+             'covers the confirmed transactions. A Redeliver that is refused and rolled back is accepted like an idempotent re-application. Trusted: Coq '
+             'kernel+vm_compute, the hand-written model (tied by the differential run after EVERY event), generator, bbolt. Integer wrap-around outside '
+             'the model (amounts of a universe sum below 2^63; heights < 2^20 generated). Late discovery of credits not generated. No axioms (Print '
+             'Assumptions closed).'),
     "C02": dict(
-        text="Theorems C02_disconnect_semantics and C02_confirm_semantics state the ledger steps in the property's words (non-coinbase transactions of "
-             "detached blocks become unconfirmed again, coinbase transactions and everything depending on them disappear; confirming removes exactly the "
-             "conflicting unconfirmed transactions and their unconfirmed descendants, the rest stays) via the declarative reachability depends_on; "
-             "C02_store_follows_ledger_steps is the refinement; C02_same_facts_same_observables: any two chain-consistent histories with equal final facts "
-             "report equal balances, spendable sets and TxDetails - unbounded. Tie to the code: pairs (generated history, direct construction of its final "
-             "facts) on the real store, plus the corpus replay of the repaired coinbase-descendant defect (fix 8f53bc5).",
-        note="Model coq/Tx/Store.v transcribes wtxmgr bucket for bucket (10 buckets, InsertTx/AddCredit/Rollback/removeConflict/Balance/fetchCredits/leases/TxDetails/RangeTransactions); hypotheses: wf_universe (ids, positive amounts, duplicate-free inputs, inputs name existing outputs, acyclic by rank) and chain_consistent (decidable, Tx/Hist.v: what a validating node can emit - re-deliveries and unconfirmed conflicts allowed). Trusted: Coq kernel+vm_compute, the hand-written model (tied by the differential run after EVERY event), generator, bbolt. Integer wrap-around outside the model (amounts < 2^53, heights < 2^20 generated). Late discovery of credits not generated. No axioms (Print Assumptions closed). The wallet-level handler wallet.disconnectBlock is covered by C15."),
+        text="6 theorems. C02_disconnect_semantics and C02_confirm_semantics state the LEDGER steps in the property's words (non-coinbase transactions of "
+             'detached blocks become unconfirmed again, coinbase transactions and everything depending on them disappear; confirming removes exactly the '
+             'conflicting unconfirmed transactions and their unconfirmed descendants, the rest stays) via the declarative reachability depends_on - these '
+             'two are about Tx/Ledger.v only; C02_store_follows_ledger_steps is the refinement that ties the store to them; '
+             'C02_same_facts_same_observables: any two chain-consistent histories with equal final facts (confirmed, unconfirmed AND raw leases with the '
+             'clock: same_facts) report equal balances, spendable sets and TxDetails - unbounded; C02_wallet_disconnect_is_rollback (disconnectBlock does '
+             "nothing, or exactly Rollback(h) plus 'synced to the parent') and C02_wallet_layer_path_independence (two notification histories with "
+             'chain-consistent images and the same facts report the same balances, spendable outputs and details through the wallet). Tie to the code: '
+             'pairs (A, B) on the real store where B reaches the same final facts another way - 1/7 the sorted direct construction, 3/7 shuffled (other '
+             'in-block order, unmined version first, repeated deliveries, detours through other-fork blocks, top blocks disconnected and reconnected), 3/7 '
+             'perturbed (A with facts-preserving insertions) - each validated by a lease-aware twin and again in Coq; one third of the pairs carry leases; '
+             "A driven through a real wallet's notification handlers (wallet.disconnectBlock) against B on the bare store; all eleven minconf values; the "
+             'alarm decision keeps what the property names: balances, spendable outputs and TxDetails (incl. block time); plus the corpus replay of the '
+             'repaired coinbase-descendant defect (fix 8f53bc5).',
+        note='Model coq/Tx/Store.v transcribes wtxmgr bucket for bucket; hypotheses: wf_universe and chain_consistent (decidable, Tx/Hist.v). EXCLUDED '
+             'from path independence, stated in the header of Properties/C02.v: TxRecord.Received and the label - Received is a caller-supplied input of '
+             'the history (the time the caller first saw the transaction), not a function of the surviving facts. Watch, unmined and locked lists are '
+             'compared with the model but do not decide C02. Trusted: Coq kernel+vm_compute, the hand-written model (tied by the differential run after '
+             'EVERY event), generator, bbolt. Integer wrap-around outside the model (amounts of a universe sum below 2^63). No axioms (Print Assumptions '
+             'closed).'),
     "C12": dict(
         text="Per-operation theorems valid in EVERY store state: leased output absent from the spendable set and from the balance, other id cannot lease "
              "(ErrAlreadyLocked, state unchanged) or release (ErrUnlockNotAllowed, unchanged), same id extends (new expiry = trunc_sec(now+dur)), owner release "
